@@ -496,11 +496,51 @@ def rule_scan(repo):
     return res
 
 
+@guarded
+def rule_recur(repo):
+    """dp <- dp + dv dt + 1/2 dR a dt^2 with dv the ACCUMULATED velocity increment and dR the ACCUMULATED rotation: in the vectorised form the position
+    summand of frame k multiplies dt with the k-th entry of the cumulative velocity table (the output of the cumsum scan), and the acceleration terms are
+    rotated by the cumulative rotation table (the output of cumprod).  The per-frame table before the scan (dv, w) has the same shape; using it is right for
+    one or two frames only."""
+    res = RuleResult('C16.RECUR', 'integrate(): the velocity that multiplies dt in the position summand is the cumulative velocity (result of the cumsum scan), and every '
+                     'rotation applied to the acceleration is the cumulative rotation (result of cumprod) - never the per-frame tables the scans start from', floor=2)
+    f = repo.func(IMU, CLS + '.integrate')
+    scans = {}
+    for n in ast.walk(f.node):
+        if isinstance(n, ast.Assign) and len(n.targets) == 1 and isinstance(n.targets[0], ast.Name) and isinstance(n.value, ast.Call):
+            nm = (dotted(n.value.func) or '').split('.')[-1]
+            if nm in ('cumsum', 'cumprod', 'cumprod_', 'cummul', 'cumops') and n.value.args and isinstance(n.value.args[0], ast.Name):
+                scans[n.targets[0].id] = (nm, n.value.args[0].id)
+    if len(scans) < 3:
+        raise AnalysisError('C16.RECUR: integrate has %d scans, expected rotation, velocity and position' % len(scans))
+    pre = {v[1]: k for k, v in scans.items()}            # per-frame table -> its cumulative table
+    # summands: elements of torch.cat([zero, <summand>], dim=1) feeding a scan
+    n_chk = 0
+    for n in ast.walk(f.node):
+        if isinstance(n, ast.Assign) and len(n.targets) == 1 and isinstance(n.targets[0], ast.Name) and n.targets[0].id in pre and \
+                isinstance(n.value, ast.Call) and dotted(n.value.func) in ('torch.cat', 'torch.concat') and n.value.args and isinstance(n.value.args[0], (ast.List, ast.Tuple)):
+            for el in n.value.args[0].elts[1:]:
+                for sub in ast.walk(el):
+                    if isinstance(sub, ast.Subscript) and isinstance(sub.value, ast.Name):
+                        nm = sub.value.id
+                        if nm in scans or nm in pre:
+                            n_chk += 1
+                            okn = nm in scans
+                            res.inst({'function': f.fq, 'summand of': n.targets[0].id, 'table read': src(sub)[:30], 'cumulative': okn}, (n.targets[0].id, src(sub)))
+                            if not okn:
+                                res.add(Finding('C16.RECUR', f, 'the summand of `%s` reads `%s`, the PER-FRAME table that the scan `%s` starts from, where the recursion needs the '
+                                                'accumulated quantity: exact for one or two frames, wrong from the third on' % (n.targets[0].id, src(sub)[:30], pre[nm]),
+                                                node=n, construct='per-frame table in a summand|' + nm))
+    if n_chk < 2:
+        raise AnalysisError('C16.RECUR: the summands of the velocity / position scans were not recognised')
+    return res
+
+
 def _rules_core(repo, tier):
     from ..effects import rule_pure
     from ..fresh import rule_fresh
     t = [(IMU, CLS + '.forward'), (IMU, CLS + '.integrate'), (IMU, CLS + '.predict'), (IMU, CLS + '.propagate_cov'), (IMU, CLS + '._check')]
-    return [rule_grav(repo), rule_scan(repo), rule_stateax(repo), rule_covord(repo), rule_carry(repo), rule_rank(repo), rule_dir_comp(repo), rule_dep(repo), rule_init(repo), rule_cov(repo),
+    return [rule_grav(repo), rule_scan(repo), rule_recur(repo), rule_stateax(repo), rule_covord(repo), rule_carry(repo), rule_rank(repo), rule_dir_comp(repo), rule_dep(repo), rule_init(repo), rule_cov(repo),
             rule_pure(repo, 'C16.PURE', 'the integrator does not write in place into the measurement tensors it is given (dt, gyro, acc, rot, init_state): '
                       'feeding the same stream again, whole or in chunks, starts from the same data', t),
             rule_fresh(repo, 'C16.FRESH', 'nothing the integrator writes in place is loaded from the integrator object (the carried state is rebound, '
